@@ -17,6 +17,7 @@ pub struct Case {
 }
 
 pub const F_FLOAT: &str = "C14-float-loses-fraction";
+pub const F_STAR_ALIAS: &str = "C14-star-alias-unquoted";
 
 pub fn gen_case(t: &mut Tape) -> Case {
     let mut cfg = GenCfg::general();
@@ -26,9 +27,11 @@ pub fn gen_case(t: &mut Tape) -> Case {
     // oracle (idempotence, same SQL) is reached; the finding stays exercised by the remaining eighth
     cfg.no_integral_floats = !t.chance(1, 8);
     let c = c01::gen_case(t, cfg);
-    Case {
-        source: print::program(&c.prog),
+    let mut source = print::program(&c.prog);
+    if t.chance(1, 2) {
+        source = crate::model::lexdecor::decorate(t, &source);
     }
+    Case { source }
 }
 
 fn strip_spans(v: &mut Value) {
@@ -108,10 +111,15 @@ pub fn check(case: &Case, known: &Known) -> Outcome {
     let p2 = match catch(|| prqlc::prql_to_pl(&f)) {
         Ok(Ok(p)) => p,
         Ok(Err(e)) => {
-            return Outcome::fail(
+            let mut o = Outcome::fail(
                 "formatted program does not parse",
                 json!({"source": src, "formatted": f, "error": util::err_reasons(&e)}),
-            )
+            );
+            // finding: an alias that is exactly `*` is written without backticks
+            if src.contains("`*` =") && (f.contains("{* =") || f.contains(" * =")) && known.is_open(F_STAR_ALIAS) {
+                o.verdict = Verdict::Known(F_STAR_ALIAS.into(), "alias `*` written as a bare *".into());
+            }
+            return o;
         }
         Err(p) => return Outcome::skip(&format!("parser_panic {}:{}", p.file, p.line)).class("compiler_panic"),
     };
